@@ -640,3 +640,6 @@ def replay(ctx, path):
                 break
     print("replay:", "still failing" if rc else "implementation, model and monitor agree")
     return rc
+
+
+META["level_claimed"]["text"] += (' Added: third_party_not_serialised (a late-comer compatible with every holder and waiter is never blocked: any number of parties, all schedules, both lock variants) and nested_lock_names_ignore_task_names (Model/MutexNames.lean: a nested pip:run names its resources in the lock namespace its parent was created with, whatever the task names); families `parties` (waiters observed parked via runtime wait reasons) and `ptasks` (tasks created by the real pip:run command line, nested submissions, lock namespaces, names in both lists).')
